@@ -267,7 +267,11 @@ impl Check for C11 {
             Tier::Quick => 500,
             Tier::Thorough => 1000,
         };
-        let sc = gen_scenario(rng, false, false, true, 4, max_steps);
+        let mut sc = gen_scenario(rng, false, false, true, 4, max_steps);
+        if rng.chance(0.08) {
+            let at = rng.below(sc.chain.len() as u64 + 1) as usize;
+            sc.chain.insert(at, Op::JsonEdit(rng.pick(&["x+1", "y-1", "angle-2pi", "angle+2pi", "cell-obtuse"]).to_string()));
+        }
         let every = *rng.pick(&[7u64, 31, 101]);
         sc.to_json()
             .set("snapshot_every", J::uint(every))
